@@ -99,6 +99,9 @@ pub struct Writer {
     /// Bytes of unrelated content already in the file when the writer is created (it must be overwritten completely).
     #[serde(default)]
     pub preexisting: usize,
+    /// The writer goes out of scope because unrelated code panics while it is alive (the stack unwinds through it).
+    #[serde(default)]
+    pub unwind_drop: bool,
 }
 
 enum W {
@@ -196,6 +199,7 @@ impl Writer {
             eintr: crate::simio::gen_eintr(rng, 40),
             fault, real,
             preexisting: if rng.chance(1, 5) { *rng.pick(&[1usize, 8, 24, 100, 4096, 100_000]) } else { 0 },
+            unwind_drop: rng.chance(1, 6),
         }
     }
 
@@ -359,7 +363,12 @@ impl Writer {
             }
         }
         if open_model && !tr.closed_ok { tr.dropped_open = true; }
-        if let Err(p) = catch(move || drop(w)) { finish(session, stats); return Err(v("drop-panic", site, format!("dropping the writer panicked: {}", p))); }
+        if self.unwind_drop {
+            // The panic below is ours; what matters is that the writer's Drop runs while the thread is panicking.
+            let r = catch(move || { let _in_scope = w; if true { panic!("sdsim: unrelated panic while a writer is in scope"); } });
+            match r { Err(ref m) if m.contains("unrelated panic while a writer is in scope") => {}, Err(p) => { finish(session, stats); return Err(v("drop-panic", site, format!("dropping the writer during unwinding panicked: {}", p))); }, Ok(()) => {} }
+            stats.probe("writer dropped while the stack unwinds");
+        } else if let Err(p) = catch(move || drop(w)) { finish(session, stats); return Err(v("drop-panic", site, format!("dropping the writer panicked: {}", p))); }
         let file = read_file(&session);
         if let Some(s) = &session { if s.open_handles() != 0 { let n = s.open_handles(); finish(session, stats); return Err(v("handle-leak", site, format!("{} file handles still open after drop", n))); } }
         finish(session, stats);
@@ -518,6 +527,7 @@ impl Writer {
         if let Some(b) = self.buf_len { if b > 64 { let mut s = self.clone(); s.buf_len = Some(64); out.push(s); let mut s = self.clone(); s.buf_len = Some(b / 2); out.push(s); } }
         if self.real != RealMode::Sim { let mut s = self.clone(); s.real = RealMode::Sim; out.push(s); }
         if self.preexisting > 0 { let mut s = self.clone(); s.preexisting = 0; out.push(s); }
+        if self.unwind_drop { let mut s = self.clone(); s.unwind_drop = false; out.push(s); }
         if let Some((fam, kind, WPoints::One(k))) = &self.fault { for kk in [0u64, k / 2, k.saturating_sub(8), k.saturating_sub(1)] { if kk < *k { let mut s = self.clone(); s.fault = Some((*fam, *kind, WPoints::One(kk))); out.push(s); } } }
         out
     }
